@@ -61,7 +61,7 @@ def req(draw, names=NAMES):
         c = draw(st.sampled_from([None, None, "x"]))
         if c:
             it["comment"] = c
-        if draw(st.integers(0, 5)) == 0:
+        if draw(st.integers(0, 3)) == 0:
             it["postprocess"] = True
         items.append(it)
     # the same URI may be named twice in a request (possibly with different directives)
@@ -157,6 +157,14 @@ def fixed_faults():
         {"requests": [g("a"), g("b", "c", "f")], "tolerant": False, "parallel": True},
         {"requests": [g("a"), g("b", "b")], "tolerant": True, "parallel": False},
         {"requests": [g("a", "b", "a")], "tolerant": True, "parallel": True},
+    ] + [
+        # requests mixing directives (plain before / after post-processed, three items), in every mode: results must
+        # stay paired with the URIs of the request whatever order the downloads are scheduled or finish in
+        {"requests": [g("f"), r], "tolerant": tol, "parallel": par}
+        for r in ([{"name": "a"}, {"name": "b", "postprocess": True}],
+                  [{"name": "a", "postprocess": True}, {"name": "b"}],
+                  [{"name": "a"}, {"name": "b", "postprocess": True}, {"name": "c", "comment": "x"}])
+        for tol in (True, False) for par in (True, False)
     ]
 
 
